@@ -254,7 +254,7 @@ PROPS['C03'] = dict(
   units=[U('order_n3', 'C03_filtration.cpp', ['VP_MODE=0', 'VP_N=3', 'VP_VMAX=2'], weight=10), U('monotonise_n3', 'C03_filtration.cpp', ['VP_MODE=1', 'VP_N=3', 'VP_VMAX=2'], weight=6), U('prune_n3', 'C03_filtration.cpp', ['VP_MODE=2', 'VP_N=3', 'VP_VMAX=2'], weight=8),
          U('monotonise_n3_int', 'C03_filtration.cpp', ['VP_MODE=1', 'VP_N=3', 'VP_VMAX=2', 'VP_INTFILT'], weight=6),
          U('extended_n3', 'C03_filtration.cpp', ['VP_MODE=3', 'VP_N=3', 'VP_VMAX=2'], weight=8),
-         U('order_n4', 'C03_filtration.cpp', ['VP_MODE=0', 'VP_N=4', 'VP_VMAX=1'], tiers=['thorough'], weight=40), U('monotonise_n4', 'C03_filtration.cpp', ['VP_MODE=1', 'VP_N=4', 'VP_VMAX=1'], tiers=['thorough'], weight=30), U('prune_n4', 'C03_filtration.cpp', ['VP_MODE=2', 'VP_N=4', 'VP_VMAX=1'], tiers=['thorough'], weight=30), U('extended_n4', 'C03_filtration.cpp', ['VP_MODE=3', 'VP_N=4', 'VP_VMAX=1'], tiers=['thorough'], weight=30)])
+         U('order_n4_full', 'C03_filtration.cpp', ['VP_MODE=0', 'VP_N=4', 'VP_VMAX=1', 'VP_FULL'], tiers=['thorough'], weight=40), U('monotonise_n4_full', 'C03_filtration.cpp', ['VP_MODE=1', 'VP_N=4', 'VP_VMAX=1', 'VP_FULL'], tiers=['thorough'], weight=30, jobs=16), U('prune_n4_full', 'C03_filtration.cpp', ['VP_MODE=2', 'VP_N=4', 'VP_VMAX=1', 'VP_FULL'], tiers=['thorough'], weight=30), U('extended_n4', 'C03_filtration.cpp', ['VP_MODE=3', 'VP_N=4', 'VP_VMAX=1'], tiers=['thorough'], weight=30)])
 
 # ------------------------------------------------------------------------------------------------ C15
 _u15 = [U('st_copy_move_opt%d' % o, 'C15_st.cpp', ['VP_OPT=%d' % o, 'VP_N=3'], weight=8, must_reach=['end', 'copy-ctor', 'copy-assign', 'self-assign', 'move-ctor', 'move-assign', 'swap']) for o in (0, 1, 2, 3)]
@@ -356,3 +356,130 @@ EXTRA['C10'] = cbmc_c10.run
 
 NOT_APPLICABLE = {}
 NOTES = 'Clauses outside every claim: real thread schedules/TBB execution (engine is sequential), iostream text I/O, GMP arbitrary precision, Eigen-based Coxeter point location under general affine maps, SIMD paths of boost::unordered_flat_map (compiled with -U__SSE2__), allocation failure, inputs beyond the stated bounds.'
+
+
+# ------------------------------------------------------------------------------------------------ tiers actually registered
+# The units below are larger variants that were written but NOT validated to finish inside the per-unit cap on this machine (several ran into
+# it). A registered command must never answer INCONCLUSIVE on the unchanged tree, so they are kept out of the quick and thorough tiers and run
+# only with `./check <ID> --tier deep` (not in MANIFEST.json; budget 3 h per unit). Promote a unit by deleting it from this list once it passed.
+DEEP_ONLY = [["C10", "zp_ops_p31"],
+  ["C10", "zp_ops_p251"],
+  ["C10", "zp_elem_p31"],
+  ["C10", "zp_elem_p251"],
+  ["C10", "mfs_elem_2_7"],
+  ["C10", "mfs_elem_3_7"],
+  ["C10", "mfs_elem_5_13"],
+  ["C01", "hist_opt0_n3k3"],
+  ["C01", "hist_opt1_n3k3"],
+  ["C01", "hist_opt2_n3k3"],
+  ["C01", "hist_opt3_n3k3"],
+  ["C01", "hist_opt4_n3k3"],
+  ["C01", "hist_opt5_n3k3"],
+  ["C01", "hist_opt0_n4k2"],
+  ["C01", "hist_opt1_n4k2"],
+  ["C13", "order_2x2"],
+  ["C13", "vals_2x3"],
+  ["C13", "vals_torus3x3"],
+  ["C13", "order_2x2_v2"],
+  ["C13", "all_2x2_float"],
+  ["C13", "vals_2x2x2"],
+  ["C09", "base_list_z5_r00_m0_s1_c0_k2"],
+  ["C09", "base_list_z2_r10_m1_s1_c0_k3"],
+  ["C09", "base_set_z5_r00_m0_s1_c0_k2"],
+  ["C09", "base_set_z2_r10_m1_s1_c0_k3"],
+  ["C09", "base_heap_z5_r00_m0_s1_c0_k2"],
+  ["C09", "base_heap_z2_r00_m1_s1_c0_k3"],
+  ["C09", "base_vector_z5_r00_m0_s1_c0_k2"],
+  ["C09", "base_vector_z2_r10_m1_s1_c0_k3"],
+  ["C09", "base_naive_vector_z5_r00_m0_s1_c0_k2"],
+  ["C09", "base_naive_vector_z2_r10_m1_s1_c0_k3"],
+  ["C09", "base_small_vector_z5_r00_m0_s1_c0_k2"],
+  ["C09", "base_small_vector_z2_r10_m1_s1_c0_k3"],
+  ["C09", "base_unordered_set_z5_r00_m0_s1_c0_k2"],
+  ["C09", "base_unordered_set_z2_r10_m1_s1_c0_k3"],
+  ["C09", "base_intrusive_list_z5_r00_m0_s1_c0_k2"],
+  ["C09", "base_intrusive_list_z2_r10_m1_s1_c0_k3"],
+  ["C09", "base_intrusive_set_z5_r00_m0_s1_c0_k2"],
+  ["C09", "base_intrusive_set_z2_r10_m1_s1_c0_k3"],
+  ["C05", "t_boundary_list_m6"],
+  ["C05", "t_ru_list_m6"],
+  ["C05", "t_chain_list_m6"],
+  ["C05", "t_boundary_set_m6"],
+  ["C05", "t_ru_set_m6"],
+  ["C05", "t_chain_set_m6"],
+  ["C05", "t_boundary_heap_m6"],
+  ["C05", "t_ru_heap_m6"],
+  ["C05", "t_boundary_vector_m6"],
+  ["C05", "t_ru_vector_m6"],
+  ["C05", "t_chain_vector_m6"],
+  ["C05", "t_boundary_naive_vector_m6"],
+  ["C05", "t_ru_naive_vector_m6"],
+  ["C05", "t_chain_naive_vector_m6"],
+  ["C05", "t_boundary_small_vector_m6"],
+  ["C05", "t_ru_small_vector_m6"],
+  ["C05", "t_chain_small_vector_m6"],
+  ["C05", "t_boundary_unordered_set_m6"],
+  ["C05", "t_ru_unordered_set_m6"],
+  ["C05", "t_chain_unordered_set_m6"],
+  ["C05", "t_boundary_intrusive_list_m6"],
+  ["C05", "t_ru_intrusive_list_m6"],
+  ["C05", "t_chain_intrusive_list_m6"],
+  ["C05", "t_boundary_intrusive_set_m6"],
+  ["C05", "t_ru_intrusive_set_m6"],
+  ["C05", "t_chain_intrusive_set_m6"],
+  ["C06", "t_ru_pos_rm_list"],
+  ["C06", "t_chain_pos_rm_list"],
+  ["C06", "t_ru_pos_rm_set"],
+  ["C06", "t_chain_pos_rm_set"],
+  ["C06", "t_ru_pos_rm_heap"],
+  ["C06", "t_ru_pos_rm_vector"],
+  ["C06", "t_chain_pos_rm_vector"],
+  ["C06", "t_ru_pos_rm_naive_vector"],
+  ["C06", "t_chain_pos_rm_naive_vector"],
+  ["C06", "t_ru_pos_rm_small_vector"],
+  ["C06", "t_chain_pos_rm_small_vector"],
+  ["C06", "t_ru_pos_rm_unordered_set"],
+  ["C06", "t_chain_pos_rm_unordered_set"],
+  ["C06", "t_ru_pos_rm_intrusive_list"],
+  ["C06", "t_chain_pos_rm_intrusive_list"],
+  ["C06", "t_ru_pos_rm_intrusive_set"],
+  ["C06", "t_chain_pos_rm_intrusive_set"],
+  ["C08", "t_rep_ru_tet8"],
+  ["C08", "t_rep_ru_tri7"],
+  ["C08", "t_rep_chain_tet8"],
+  ["C08", "t_rep_chain_tri7"],
+  ["C04", "flag_n5"],
+  ["C04", "flag_n4_double_block"],
+  ["C03", "order_n4_full"],
+  ["C03", "prune_n4_full"],
+  ["C03", "extended_n4"],
+  ["C02", "coh_n4_v2_p3"],
+  ["C02", "coh_n3_p11"],
+  ["C02", "coh_n3_p46337"],
+  ["C07", "zz_tri_k7"],
+  ["C07", "zz_tet_k6"],
+  ["C12", "collapse_n5_w2"],
+  ["C12", "collapse_octahedron_w3_dense"],
+  ["C12", "collapse_n5_w3_dense"],
+  ["C12", "collapse_n4_float_w4"],
+  ["C11", "ripser_n4_p2"],
+  ["C11", "ripser_n3_p5"],
+  ["C11", "ripser_n4_p3"],
+  ["C11", "ripser_n4_p2_cross"],
+  ["C11", "ripser_n5_p3_zero"],
+  ["C11", "ripser_n5_p3_forked"],
+  ["C19", "srips_n5"]]
+for _pid, _name in DEEP_ONLY:
+    for _u in PROPS[_pid]['units']:
+        if _u['name'] == _name: _u['tiers'] = ['deep']
+
+_TH = {'C03': 'quick tier + monotonisation on the full tetrahedron (4 vertices, values 0..1)',
+       'C06': 'quick tier + RU with VECTOR columns: every filtration of 8 cells of dimension <= 1 on 4 vertices (enumerated) x 2 swaps; RU without stored barcode m=5 k=3',
+       'C07': 'quick tier + graph zigzags on 4 vertices with 8 edge arrows (right-filtration oracle, 3.7M paths)',
+       'C12': 'quick tier + complete graph on 6 vertices: weights in {1,2} (dense table); 12 free weights in {1,2,3} with the triangle {0,1,2} at 1, for both neighbour-table implementations (enumerated, 531k inputs each)'}
+for _pid, _P in PROPS.items():
+    _deep = [u for u in _P['units'] if 'deep' in u['tiers']]
+    if not _deep: continue
+    _b = dict(_P['bounds']); _b['deep (not registered, not validated to finish within the cap)'] = _b['thorough']
+    _b['thorough'] = _TH.get(_pid, 'the same units as the quick tier')
+    _P['bounds'] = _b
